@@ -162,6 +162,11 @@ def main(prop, argv):
         fp_changed = []
     # anchored source differs from the tree the model was last aligned with: search with a larger budget
     scale = 3 if fp_changed else 1
+    import tempfile
+    from . import implcov
+    covdir = tempfile.mkdtemp(prefix="implcov-", dir=os.path.join(C.VERIF, "replays") if os.path.isdir(os.path.join(C.VERIF, "replays")) else None)
+    os.environ["VERIF_IMPLCOV_DIR"] = covdir
+    cov_on = implcov.start()
     try:
         out = prop.run(Ctx(args.tier, seed, scale, pr["driver_ok"]))
     except Exception:
@@ -238,6 +243,15 @@ def main(prop, argv):
         "known_findings_hit": sorted(hit), "escalated_search": escalated, "notes": out.notes,
         "fingerprints_changed": fp_changed, "budget_scale": scale, "leanchecker": pr.get("leanchecker"),
     }
+    try:
+        if cov_on:
+            files = sorted(set(fingerprints.anchors().get(prop.ID, [])) | set(getattr(prop, "EXTRA_FILES", ())))
+            coverage["impl_coverage"] = implcov.report(files, implcov.collect(covdir))
+    except Exception:
+        coverage["impl_coverage"] = {"error": traceback.format_exc()[-400:]}
+    finally:
+        import shutil
+        shutil.rmtree(covdir, ignore_errors=True)
     C.write_evidence(prop.ID, args.tier, seed, coverage, list(getattr(prop, "ASSUMPTIONS", [])),
                      time.time() - t0, len(new) + (1 if (broken and not new) else 0))
     degenerate = out.evaluations > 0 and nontrivial < 2
